@@ -22,6 +22,16 @@ static void build_pair(int la, int lb, int how, int sa, int sb) {
       _mpz_realloc(a, la); rnd_limbs(PTR(a), la > gl ? la - gl : 1, 0); SIZ(a) = la > gl ? la - gl : 1; MPN_NORMALIZE(PTR(a), SIZ(a)); if (!SIZ(a)) mpz_set_ui(a, 3);
       _mpz_realloc(b, lb + 1); rnd_limbs(PTR(b), lb > gl ? lb - gl : 1, 0); SIZ(b) = lb > gl ? lb - gl : 1; MPN_NORMALIZE(PTR(b), SIZ(b)); if (!SIZ(b)) mpz_set_ui(b, 5);
       mpz_mul(a, a, g); mpz_mul(b, b, g); break; }
+  case 9: { /* straddling a power of the limb base: A = B^(la-1) + X, B = q*A + B^(la-1) - Y (X, Y about 0.8 la limbs, q small): the first remainder is one limb
+               shorter than the divisor although both are within a factor 2 of B^(la-1); times a common odd factor every other time */
+      mp_size_t xl = la > 2 ? la * 4 / 5 : 1;
+      _mpz_realloc(t, xl + 1); rnd_limbs(PTR(t), xl, 0); SIZ(t) = xl; MPN_NORMALIZE(PTR(t), SIZ(t));
+      mpz_set_ui(a, 1); mpz_mul_2exp(a, a, 64 * (la > 1 ? la - 1 : 1)); mpz_set(b, a); mpz_add(a, a, t);
+      _mpz_realloc(t, xl + 1); rnd_limbs(PTR(t), xl, 0); SIZ(t) = xl; MPN_NORMALIZE(PTR(t), SIZ(t)); mpz_sub(b, b, t);
+      mpz_setbit(a, 0); mpz_setbit(b, 0);
+      mpz_set_ui(t, 1 + rnd_below(3)); mpz_addmul(b, a, t);
+      if (rnd64() & 1) { mpz_mul_ui(a, a, 1001); mpz_mul_ui(b, b, 1001); }
+      break; }
   default: {
       _mpz_realloc(a, la + 1); if (la) { rnd_limbs(PTR(a), la, (int)rnd_below(NKINDS)); } SIZ(a) = la; MPN_NORMALIZE(PTR(a), SIZ(a));
       _mpz_realloc(b, lb + 1); if (lb) { rnd_limbs(PTR(b), lb, (int)rnd_below(NKINDS)); } SIZ(b) = lb; MPN_NORMALIZE(PTR(b), SIZ(b));
@@ -57,7 +67,7 @@ void drv_c07_mpz(int tier, unsigned long seed, const char *extra) {
   int ls[60], nl = 0;
   if (sh.pure) { ls[nl++] = 1; ls[nl++] = 2; ls[nl++] = 3; }
   else { nl = sizes_around(ls, 40, thr, 5, 1, 200); if (tier) nl += sizes_around(ls + nl, 12, thr_t, 2, 300, 500); else { ls[nl++] = 343; ls[nl++] = 461; } }
-  for (i = 0; i < nl; i++) for (how = 0; how < 9; how++) for (d = 0; d < 5; d++) {
+  for (i = 0; i < nl; i++) for (how = 0; how < 10; how++) for (d = 0; d < 5; d++) {
     int la = ls[i], lb = d < 4 ? (la - d > 0 ? la - d : 1) : (la / 4 > 0 ? la / 4 : 1), j;
     if (la > 200 && (how == 2 ? 0 : (d % 2))) continue;
     x++; if (!MINE(sh, x)) continue;
@@ -69,6 +79,23 @@ void drv_c07_mpz(int tier, unsigned long seed, const char *extra) {
       build_pair(la, lb, how, sa, sb); gcd_suite(la <= 60);
       if (la <= 60) { callf("mpz_swap", 0, 1); gcd_suite(0); }
     }
+    for (j = 0; j < 5; j++) callf("mpz_clear", j);
+    rec_quiesce();
+  }
+}
+/* the sub-quadratic reduction step (mpn_hgcd_reduce) is entered only from HGCD_REDUCE_THRESHOLD limbs of half-gcd size: operands of twice (gcdext) and three
+   times (gcd) that many limbs, random and straddling a power of the limb base */
+void drv_c07_big(int tier, unsigned long seed, const char *extra) {
+  shard_t sh = shard_parse(extra); long x = 0; int m, how, j;
+  if (sh.pure) return;
+  for (m = 2; m <= (tier ? 3 : 2); m++) for (how = 0; how < (tier ? 4 : 2); how++) {       /* quick: the gcdext size only */
+    int la = m * HGCD_REDUCE_THRESHOLD + 8 + (int)rnd_below(40), hw = how == 0 ? 9 : how == 1 ? 0 : how == 2 ? 9 : 3;
+    x++; if (!MINE(sh, x)) continue;
+    rec_reset("c07_big", x, seed);
+    for (j = 0; j < 5; j++) callf("mpz_init", j);
+    build_pair(la, la, hw, 0, 0);
+    shrinkz(2); callf("mpz_gcd", 2, 0, 1); shrinkz(2); shrinkz(3); shrinkz(4); callf("mpz_gcdext", 2, 3, 4, 0, 1);
+    if (m == 2) { callf("mpz_swap", 0, 1); callf("mpz_gcdext_nt", 2, 3, 0, 1); callf("mpz_gcd", 2, 0, 1); }
     for (j = 0; j < 5; j++) callf("mpz_clear", j);
     rec_quiesce();
   }
